@@ -33,6 +33,7 @@ OBLIGATIONS = {
     "witness_v1plus_len_other": "a valid v1+ address with a program length other than 20/32", "unknown_b58_version": "a checksum-valid "
     "Base58Check string with an unknown version byte", "corrupted_still_valid": "a corrupted address that is itself another valid address",
     "pubkey_wrong_len_for_prefix": "a key buffer with valid prefix and the other length", "pubkey_off_curve": "an off-curve key buffer",
+    "pubkey_coordinate_ge_p": "a key buffer whose coordinate field is x+p / y+p of a genuine point (secp256k1 and small curves)",
 }
 BOUND = {"quick": "as stated; small curve p=43", "thorough": "adds p=67,79 and 2-substitutions on the shortest addresses"}
 NETS = ["mainnet", "testnet", "regtest"]
@@ -230,6 +231,12 @@ def run_job(job):
                 acc.evaluations += 1
                 acc.nontrivial += 1
                 acc.check("map", {"data": pk.hex(), "what": "valid public key"}, chk_map)
+        from vf.classes import secp_unreduced_sec1
+        for what, buf, _ in secp_unreduced_sec1():
+            acc.evaluations += 1
+            acc.nontrivial += 1
+            acc.ob("pubkey_coordinate_ge_p")
+            acc.check("map", {"data": buf.hex(), "what": "coordinate field >= p: " + what}, chk_map)
     elif part == "small":
         C = smallcurve.curve(job["curve"])
         for P in C.all_points():
@@ -238,9 +245,16 @@ def run_job(job):
                 acc.evaluations += 1
                 acc.nontrivial += 1
                 acc.check("map", {"curve": job["curve"], "data": pk.hex(), "what": "small-curve point"}, chk_map)
+        ys_of = {}
+        for P in C.all_points():
+            ys_of.setdefault(P[0], []).append(P[1])
         for x in range(2 * C.p + 2):
             for prefix in (2, 3, 4, 6, 0):
-                for y in (0, 1, C.p - 1, C.p):
+                # the y of the point the reduced x belongs to, and that y + p: an encoding with a coordinate field >= p is
+                # invalid although the reduced pair is on the curve
+                for y in sorted({0, 1, C.p - 1, C.p} | {v for y0 in ys_of.get(x % C.p, []) for v in (y0, y0 + C.p)}):
+                    if (x >= C.p or y >= C.p) and y % C.p in ys_of.get(x % C.p, []):
+                        acc.ob("pubkey_coordinate_ge_p")
                     for pk in (bytes([prefix]) + x.to_bytes(32, "big"), bytes([prefix]) + x.to_bytes(32, "big") + y.to_bytes(32, "big")):
                         acc.evaluations += 1
                         acc.nontrivial += 1
